@@ -74,7 +74,7 @@ func zzC13FsmType(i int) byte {
 // is executed. Asserted: if that step answers Flight2 again - i.e. another HelloVerifyRequest goes out - the
 // record that caused it carried a ClientHello fragment.
 //
-//symgo:entry covers=hvr_again_for_client_hello,no_reaction,aborted
+//symgo:entry covers=hvr_again_for_client_hello,aborted
 func zzCookieRequestOnlyForClientHello() {
 	cfg := &dtlsconfig.HandshakeConfig{
 		LocalCipherSuites: []dtlsconfig.CipherSuite{&ciphersuite.TLSEcdheEcdsaWithAes128GcmSha256{}},
